@@ -10,6 +10,8 @@
 (*   "tseval" a trace set with rational coefficients / limits / jump evaluated by xy() /    *)
 (*            traceset2xy() at given positions and on its default grid                      *)
 (*   "grid"   the default grid of any trace set (FITS fixtures included)                    *)
+(* (a record whose exact answer does not fit TLC's integers is answered "toobig" and the    *)
+(* harness sets it aside)                                                                   *)
 (* Law instances on real-valued data (M3): the harness measures the discrepancy between two *)
 (* real computations named by the law, in units of 10^-12 of the data scale, and the        *)
 (* specification judges it:                                                                 *)
@@ -28,8 +30,10 @@ AllClose(obsSeq, qSeq, tol) == Len(obsSeq) = Len(qSeq) /\ \A k \in 1..Len(qSeq) 
 
 (* ---- basis ---- *)
 BasisWhy(r) ==
-  IF r.rows # r.m \/ r.cols # Len(r.xs) \/ Len(r.vals) # Len(r.xs) THEN "shape"
-  ELSE IF \E a \in 1..Len(r.xs) : ~AllClose(r.vals[a], Basis(r.basis, r.m, r.xs[a]), r.tol) THEN "value"
+  LET e == TLCEval([a \in 1..Len(r.xs) |-> Basis(r.basis, r.m, r.xs[a])]) IN
+  IF \E a \in 1..Len(r.xs) : ~AllProper(e[a]) THEN "toobig"
+  ELSE IF r.rows # r.m \/ r.cols # Len(r.xs) \/ Len(r.vals) # Len(r.xs) THEN "shape"
+  ELSE IF \E a \in 1..Len(r.xs) : ~AllClose(r.vals[a], e[a], r.tol) THEN "value"
   ELSE ""
 
 (* ---- fit ---- *)
@@ -38,7 +42,7 @@ FitWhy(r) ==
   LET p == Problem(r) IN
   IF ~WellPosed(p) THEN "notwellposed"
   ELSE LET e == FitOutcome(p, Solve(p)) IN
-       IF ~IsWLS(p, e.res) THEN "specerror"
+       IF ~(AllProper(e.res) /\ AllProper(e.yfit)) THEN "toobig"       \* the exact answer does not fit 32 bits
        ELSE IF ~AllClose(r.res, e.res, r.tol) THEN "coefficients"
        ELSE IF ~AllClose(r.yfit, e.yfit, r.tol) THEN "yfit"
        ELSE ""
@@ -60,7 +64,8 @@ TsEvalWhy(r) ==
       gw == GridWhy(r.grid, r.xmin, r.xmax, Len(r.coeff))
       g == DefaultGrid(r.xmin, r.xmax)
       eg == TsEval(t, r.coeff, [k \in 1..Len(r.coeff) |-> [a \in 1..Len(r.gi) |-> g[r.gi[a]]]], JumpOf(r))
-  IN IF Len(r.vals) # Len(r.coeff) THEN "rows"
+  IN IF \E k \in 1..Len(r.coeff) : ~(AllProper(e[k]) /\ AllProper(eg[k])) THEN "toobig"
+     ELSE IF Len(r.vals) # Len(r.coeff) THEN "rows"
      ELSE IF \E k \in 1..Len(r.coeff) : ~AllClose(r.vals[k], e[k], r.tol) THEN "value"
      ELSE IF gw # "" THEN gw
      ELSE IF \E k \in 1..Len(r.coeff) : ~AllClose(r.gvals[k], eg[k], r.tol) THEN "gridvalue"
